@@ -34,7 +34,7 @@ CLAIMS.update({
  "C13": ("proof", "C13.* theorems on the option-plumbing model (cli_forwards: the generator main.rs builds equals the one the documented options denote, for all option combinations and seeds; protocol_from_seed; all_expands; batch_names; py_setter_preserves; mutate_trunc; pre-repair counterexamples kept). S7 ties it to the real artefacts: the built binary in single-file and batch mode (RAYON_NUM_THREADS 1/2/16; exactly 0.pkl..N-1.pkl, exit status), scripts/action-run.sh with the real binary, and the _native extension built with --features python-bindings (constructor -> set_opcode_range -> generate / generate_from_bytes / PickleMutator.mutate, with warm-up calls) — every file / returned byte string compared with the Rust library called with the denoted configuration. clap, rayon and PyO3 themselves are exercised, not modelled.", "§6 C13", "Lean theorems on the plumbing model + S7 end-to-end comparison with the library"),
 })
 CLAIMS.update({
- "C14": ("proof", "Proved on an abstract reference-counting heap (cells numbered by age): the arena invariant (an edge that does not point to a strictly older cell starts at a cell created by Stack::push) holds initially and is preserved by allocation and by in-place mutation of arena cells; after Stack::reset/Drop has emptied the arena cells every edge points to an older cell, so no set of cells can keep itself alive (C14.all_reclaimed); the pre-repair behaviour has a self-sustaining set (C14.legacy_cycle_leaks). Which Rust statements allocate / mutate / release is re-checked syntactically by the translator on every run (six in-place mutation sites, all on stack cells; push registers, reset and Drop release). The allocator itself is observed, not modelled: stream S8 measures live heap bytes with a counting global allocator before constructing and after dropping a generator for thousands of cases incl. reset + regeneration. Partial in the sense of DESIGN §6 C14.", "§6 C14", "Lean theorems on an abstract refcount heap + translator site check + S8 allocator accounting"),
+ "C14": ("proof", "Proved on an abstract reference-counting heap (cells numbered by age): the arena invariant (an edge that does not point to a strictly older cell starts at a cell created by Stack::push) holds initially and is preserved by allocation and by in-place mutation of arena cells; after Stack::reset/Drop has emptied the arena cells every edge points to an older cell, so no set of cells can keep itself alive (C14.all_reclaimed); the pre-repair behaviour has a self-sustaining set (C14.legacy_cycle_leaks). Carried to the opcode level by the object model Obj.lean (which cell every arm of process_stack_ops allocates, aliases, mutates in place or drops; memo and stack as cell identities): every run of it, for any opcodes and arguments, is a program of the abstract machine (C14.obj_run_is_machine_program), hence C14.obj_all_reclaimed and C14.obj_stack_cells_registered; its projection to slot kinds is the simulated VM of the other properties (C14.obj_refines_sim, when listed in the evidence). Tie: stream S10 compares the model's live object graph (kinds, push-registered flags, strong counts, children, stack and memo identities) with the implementation's before every opcode and at the end of real runs and of ~800 cycle-closing plans; the translator's syntactic site check (in-place mutation sites all on stack cells; push registers, reset and Drop release) is kept. The allocator itself is observed, not modelled: stream S8 measures live heap bytes with a counting global allocator before constructing and after dropping a generator for thousands of cases incl. reset + regeneration, cycle plans and deep nesting. Partial in the sense of DESIGN §6 C14.", "§6 C14, §21", "Lean theorems on a refcount heap and on the opcode-level object model + S10 object-graph correspondence + translator site check + S8 allocator accounting"),
 })
 PENDING = {
  "C07": "check under construction in this session (purity/determinism; model + multi-process comparison)",
@@ -70,6 +70,6 @@ def main():
         notes="See DESIGN.md. Fixed defects and open findings: KNOWN_FINDINGS.txt.",
         not_applicable=[dict(property_id=k, reason=v) for k, v in sorted(PENDING.items()) if k not in CLAIMS])
     json.dump(m, open(os.path.join(V, "MANIFEST.json"), "w"), indent=1)
-HOOK_COMMITS = ["07a43bf"]
+HOOK_COMMITS = ["07a43bf", "b01a4be"]
 if __name__ == "__main__":
     main()
